@@ -16,6 +16,7 @@ import (
 type c13Params struct {
 	repoFlagSets int
 	deep         int
+	uclass       int
 	gen          int
 	genFree      int
 	mut          int
@@ -27,9 +28,9 @@ type c13Params struct {
 
 func c13Tier(tier string) c13Params {
 	if tier == "thorough" {
-		return c13Params{repoFlagSets: 12, deep: 60, gen: 5000, genFree: 2500, mut: 9000, bytes: 2500, faultsPer: 6, sessionLen: 32, realBinary: 60}
+		return c13Params{repoFlagSets: 12, deep: 60, uclass: 400, gen: 5000, genFree: 2500, mut: 9000, bytes: 2500, faultsPer: 6, sessionLen: 32, realBinary: 60}
 	}
-	return c13Params{repoFlagSets: 1, deep: 6, gen: 70, genFree: 40, mut: 170, bytes: 30, faultsPer: 4, sessionLen: 24, realBinary: 12}
+	return c13Params{repoFlagSets: 1, deep: 6, uclass: 16, gen: 70, genFree: 40, mut: 170, bytes: 30, faultsPer: 4, sessionLen: 24, realBinary: 12}
 }
 
 func c13Inputs(seed uint64, p c13Params, src string) []toolInput {
@@ -69,6 +70,30 @@ func c13Inputs(seed uint64, p c13Params, src string) []toolInput {
 		in.Flags = removeArgs(drawFlags(r, in.Rules[:2], false), "-optimize-grammar", 1)
 		if in.Name == "gennest" && r.chance(1, 2) && !contains(in.Flags, "-cache") {
 			in.Flags = append([]string{"-cache"}, in.Flags...)
+		}
+		ins = append(ins, in)
+	}
+	for i := 0; i < p.uclass; i++ {
+		// every spelling of a Unicode class name somebody might try: what the
+		// front-end accepts, the builder and the emitted tables must know too
+		names := []string{"L", "Lu", "Nd", "Latin", "Greek", "Han", "Zs", "Cn", "LC", "L&", "Letter", "Decimal_Number", "Lowercase_Letter", "Uppercase_Letter", "Titlecase_Letter", "Cased_Letter", "Mark", "Number", "Punctuation", "Symbol", "Separator", "Other", "punct", "digit", "alpha", "latin", "LATIN", "lu", "Any", "ASCII", "Assigned", "Cyrl", "Grek", "Hani", "Common", "Inherited", "Nope", "", "L u", "^L", "Lu}{Ll"}
+		var cls strings.Builder
+		for n := 1 + r.intn(2); n > 0; n-- {
+			nm := names[r.intn(len(names))]
+			if len(nm) == 1 && r.chance(1, 2) {
+				cls.WriteString("\\p" + nm)
+			} else {
+				cls.WriteString("\\p{" + nm + "}")
+			}
+		}
+		g := "A <- [" + cls.String() + "]" + r.pick([]string{"", "i", "+", "*"}) + " B\nB <- [a-z" + r.pick([]string{"", "\\p{L}", "\\pN"}) + "] / !.\n"
+		if r.chance(1, 2) {
+			g = "{\npackage gen\n}\n" + g
+		}
+		in := toolInput{Name: "uclass", Class: "uclass", Grammar: []byte(g), Rules: []string{"A", "B"}}
+		in.Flags = drawFlags(r, in.Rules, false)
+		if r.chance(1, 2) && !contains(in.Flags, "-optimize-basic-latin") {
+			in.Flags = append(in.Flags, "-optimize-basic-latin")
 		}
 		ins = append(ins, in)
 	}
